@@ -33,6 +33,7 @@ type Step struct {
 	C   string `json:"c,omitempty"`
 	Ctx string `json:"ctx,omitempty"`
 	Via string `json:"via,omitempty"`
+	F   string `json:"f,omitempty"` // Fault: the mode the environment switches to (see comps.go faultSwitch)
 }
 
 type Proc struct {
@@ -142,6 +143,19 @@ func (s *scen) tracerNoop(t trace.Tracer) bool {
 // step performs one step of a proc's program on the real provider.
 func (s *scen) step(g string, st Step, lc *local) {
 	s.sh.point()
+	if st.Op == "Fault" { // an environment step, not an API call: logged BEFORE the switch is thrown
+		s.em.ev("Fault", "f", st.F)
+		s.res.Count("fault_"+st.F, 1)
+		switch {
+		case s.tw != nil:
+			s.tw.fault.set(st.F)
+		case s.mw != nil:
+			s.mw.fault.set(st.F)
+		case s.lw != nil:
+			s.lw.fault.set(st.F)
+		}
+		return
+	}
 	none := func() (string, bool, int) { return "", false, 0 }
 	_ = none
 	switch s.sc.Prov {
@@ -757,6 +771,20 @@ func randomScenario(r *rand.Rand, i int) Scenario {
 		}
 		sc.Final = []Step{{Op: "Shutdown", Ctx: "live"}, {Op: "Get"}, {Op: "Add", Via: "old"}, {Op: "Add", Via: "new"},
 			{Op: "Collect", C: ids[0]}, {Op: "ForceFlush", Ctx: "live"}, {Op: "Shutdown", Ctx: "live"}, {Op: "Collect", C: ids[len(ids)-1]}}
+	}
+	// fault injection: in a sixth of the ordinary scenarios the environment switches to a fault mode at
+	// some point of some goroutine (user-supplied components fail from then on); the Final steps then
+	// check that everything is shut down exactly once all the same
+	if !special && r.Intn(6) == 0 {
+		mode := "comp"
+		if sc.Prov == "metric" {
+			mode = pickS(r, "callback", "producer", "exporter")
+		}
+		g := r.Intn(len(sc.Procs))
+		pos := r.Intn(len(sc.Procs[g].Steps) + 1)
+		steps := append([]Step{}, sc.Procs[g].Steps[:pos]...)
+		steps = append(steps, Step{Op: "Fault", F: mode})
+		sc.Procs[g].Steps = append(steps, sc.Procs[g].Steps[pos:]...)
 	}
 	sc.Name = fmt.Sprintf("random-%s-%d", sc.Prov, i)
 	return sc
